@@ -262,7 +262,8 @@ def shutdown_order(ctx):
     ctx.check(bool(joins), f'{f.qualname}:pollers joined', f.node, 'joinPollThread is called', 'poll threads are not joined before shutdown', f)
     for c in shut:
         loop = next((a for a in ancestors(c) if isinstance(a, ast.For)), None)
-        ok = loop is not None and '_getSortedModules' in src(loop.iter)
+        ok = loop is not None and ('_getSortedModules' in src(loop.iter) or
+                                   (isinstance(loop.iter, ast.Name) and (oo := origins(loop.iter, f.node)) and all('_getSortedModules' in src(o) for o in oo)))
         ctx.check(ok, f'{f.qualname}:shutdown in sorted order', c, 'iterates _getSortedModules()',
                   'shutdownModule does not run over the dependency-sorted order', f)
     g = m.method(SN, '_getSortedModules', inherited=False)
